@@ -31,7 +31,7 @@ SPEC = {
               17: "export_import_id (C14): export then import does not reproduce the pinset",
               18: "import_never_panics (C14): ImportState took the process down",
               13: "peerstore_roundtrip (C14): the saved file does not read back as the same addresses in the same priority order"},
-    "tags": {1: "origins-undecodable-import", 2: "crdt-import-empty-panics"},
+    "tags": {1: "origins-undecodable-import"},
     "trusted": ["file-system semantics of os.Rename / os.RemoveAll / os.Stat (directories are moved whole; a removed path is gone)",
                 "hashicorp/raft FileSnapshotStore (newest snapshot first; CRC-checked payload), raft-boltdb, go-libp2p-raft EncodeSnapshot",
                 "go-multiaddr / go-libp2p-core parsers: NewMultiaddr, String, SplitAddr, AddrInfoToP2pAddrs (abstract total parsers; their outcome per line is an input of the model; print->parse round trip exercised on the real file every run)",
@@ -43,15 +43,15 @@ SPEC = {
                   "raft.go CleanupRaft/SnapshotSave/LastStateRaw, consensus.go OfflineState, dsstate Marshal/Unmarshal, cmdutils exportState/importState and "
                   "both state managers, pstoremgr Load/Save/ImportPeers/PeerInfos: rotation for every retention >= 1, every pre-existing set of backups and "
                   "every history; snapshot/offline and marshal/unmarshal identity for every pinset and every datastore order; export->import identity under the "
-                  "no-origins guard (full statement refuted: S19) and, for crdt, the non-empty guard (refuted: empty batch commit crashes); peerstore round trip "
+                  "no-origins guard (full statement refuted: S19), for both managers and every pinset, the empty one included (crdt: fix-S33); peerstore round trip "
                   "for whatever PeerInfos returns from any reachable peerstore, garbage lines skipped for every file. Each transcription is compared with the real "
                   "functions on real directories, files, hosts and stores at every run, and the implementation's own observations are checked against the boolean "
                   "form of each clause. Monitor theorems (Proofs/C14_Monitor.v): for each of the six case kinds, the case annotated with the model's own outputs "
-                  "raises no code for every input (backup/snapshot: keep <= listed window; snapshot/export: interned cid-sorted pinset table; export: outside the two "
-                  "finding shapes, inside them only codes 17/18 with the finding's tag), and absence of each code 10..18 implies its Prop-level clause",
+                  "raises no code for every input (backup/snapshot: keep <= listed window; snapshot/export: interned cid-sorted pinset table; export: outside the "
+                  "S19 shape, inside it only code 17 with the finding's tag), and absence of each code 10..18 implies its Prop-level clause",
     "level_note": "models tied to code by differential testing (generator-bounded; the backup box is exhaustive for keep 1..4 x 64 backup sets x 1..6 cleans); "
-                  "per-pin codecs abstracted (C08); Unmarshal onto a non-empty store is C01 (S1); two findings carried as refuted/partial pairs "
-                  "(origins-undecodable-import, crdt-import-empty-panics)",
+                  "per-pin codecs abstracted (C08); Unmarshal onto a non-empty store is C01 (S1); one finding carried as a refuted/partial pair "
+                  "(origins-undecodable-import); crdt-import-empty-panics repaired (fix-S33)",
     "assumptions": ["peerstore lines are shorter than bufio.MaxScanTokenSize (64 KiB); a longer line stops the scan (logged), the rest of the file is not read",
                     "no /dnsaddr line in the peerstore file (ImportPeer resolves it over the network)",
                     "the pstoremgr Manager has a non-nil host (with a nil host ImportPeers dereferences it in SetPriority; cmdutils only calls LoadPeerstore on such a manager)",
